@@ -145,9 +145,12 @@ async fn ns_case(log: &mut Log, st: &mut Stats, rng: &mut Rng) {
             }
             91..=95 => {
                 st.bump("ns_close");
-                probe.close(pid);
+                // the REAL supervision handler of the NodeServer (exit or failure of the session)
+                let failed = rng.chance(1, 3);
+                let known = probe.session_exit(pid, failed).await;
                 pids.retain(|p| *p != pid);
-                log.rec(format!("close {pid}"), "ok");
+                log.rec(format!("{} {pid}", if failed { "closef" } else { "close" }), if known { "ok" } else { "unknown" });
+                log.rec("residue", show_residue(&probe));
             }
             _ => {
                 st.bump("ns_visible");
@@ -155,6 +158,85 @@ async fn ns_case(log: &mut Log, st: &mut Stats, rng: &mut Rng) {
             }
         }
     }
+    probe.shutdown();
+}
+
+fn show_residue(p: &NodeStateProbe) -> String {
+    let (ns, ids, auth) = p.residue();
+    format!("ns={} ids={} auth={}", show_u64s(&ns), show_u64s(&ids), show_u64s(&auth))
+}
+
+/// register + `check_candidate` + `commit_authenticated` + `is_elected` + the session's own
+/// `CheckSession` of a session that (re)connects
+fn fresh_obs(p: &mut NodeStateProbe, pid: u64, peer: &str, nonce: u64) -> String {
+    let r = p.register(pid, peer, nonce);
+    let c = p.check_candidate(pid);
+    let commit = match p.commit(pid) {
+        None => "none".to_string(),
+        Some((s, mut l)) => {
+            l.sort_unstable();
+            format!("{s} {}", show_u64s(&l))
+        }
+    };
+    format!("{r} | {c} | {commit} | {} {}", p.is_elected(pid), p.check_session(peer, nonce))
+}
+
+/// Session death and reconnection on one node: sessions to a peer (and to a bystander peer) are
+/// opened, registered and authenticated; then EVERY session of the peer exits or fails (the real
+/// supervision handler); the bookkeeping must not mention them any more, and a fresh session of
+/// the same peer (then more of them) is accepted and elected as on a node that never saw the peer.
+async fn ns_reconnect(log: &mut Log, st: &mut Stats, rng: &mut Rng) {
+    let this = *rng.pick(&["m@h", "b@b", "a@a"]);
+    let peer = *rng.pick(&["p@h", "a@z", "zz@h"]);
+    let other = "other@h";
+    let mut probe = NodeStateProbe::new(this).await;
+    log.rec(format!("ns {this}"), "ok");
+    st.bump("reconnect_case");
+    let mut old: Vec<u64> = Vec::new();
+    for _ in 0..rng.range(1, 4) {
+        let srv = rng.chance(1, 2);
+        let pid = probe.open(srv).await;
+        log.rec(format!("open {srv} {pid}"), "ok");
+        let nonce = *rng.pick(&[0u64, 4, 9]);
+        // some sessions die before they registered / authenticated
+        match rng.below(5) {
+            0 => {}
+            1 => {
+                let r = probe.register(pid, peer, nonce);
+                log.rec(format!("register {pid} {peer} {nonce}"), r.to_string());
+            }
+            _ => log.rec(format!("fresh {pid} {peer} {nonce}"), fresh_obs(&mut probe, pid, peer, nonce)),
+        }
+        old.push(pid);
+    }
+    // a bystander peer whose session must be left alone
+    let by = probe.open(true).await;
+    log.rec(format!("open true {by}"), "ok");
+    log.rec(format!("fresh {by} {other} 5"), fresh_obs(&mut probe, by, other, 5));
+    rng.shuffle(&mut old);
+    for pid in &old {
+        let failed = rng.chance(1, 2);
+        let known = probe.session_exit(*pid, failed).await;
+        st.bump(if failed { "reconnect_failed_exit" } else { "reconnect_exit" });
+        log.rec(format!("{} {pid}", if failed { "closef" } else { "close" }), if known { "ok" } else { "unknown" });
+        log.rec("residue", show_residue(&probe));
+    }
+    log.rec("visible", show_u64s(&probe.visible()));
+    // the peer comes back
+    let mut fresh: Vec<u64> = Vec::new();
+    for _ in 0..rng.range(1, 3) {
+        let srv = rng.chance(1, 2);
+        let pid = probe.open(srv).await;
+        log.rec(format!("open {srv} {pid}"), "ok");
+        let nonce = *rng.pick(&[0u64, 3, 4, 9]);
+        log.rec(format!("fresh {pid} {peer} {nonce}"), fresh_obs(&mut probe, pid, peer, nonce));
+        fresh.push(pid);
+        log.rec("visible", show_u64s(&probe.visible()));
+    }
+    for q in fresh.iter().chain([by].iter()) {
+        log.rec(format!("elected {q}"), probe.is_elected(*q).to_string());
+    }
+    log.rec("residue", show_residue(&probe));
     probe.shutdown();
 }
 
@@ -224,8 +306,9 @@ async fn ns_flow(log: &mut Log, st: &mut Stats, rng: &mut Rng) {
         for x in &to_close {
             if rng.chance(1, 2) {
                 // the handler stops losers; their exit removes them from the state
-                probe.close(*x);
-                log.rec(format!("close {x}"), "ok");
+                let known = probe.session_exit(*x, false).await;
+                log.rec(format!("close {x}"), if known { "ok" } else { "unknown" });
+                log.rec("residue", show_residue(&probe));
             }
         }
         log.rec("visible", show_u64s(&probe.visible()));
@@ -745,10 +828,18 @@ async fn replay_ops(log: &mut Log, st: &mut Stats, path: &str) {
                         let (peer, nonce) = regs.get(&pid).cloned().unwrap_or_default();
                         log.rec(format!("postauth {pid}"), format!("{} {}", p.is_elected(pid), p.check_session(&peer, nonce)));
                     }
-                    ["close", pid] => {
+                    [kind @ ("close" | "closef"), pid] => {
                         let pid = m(&map, pid);
-                        p.close(pid);
-                        log.rec(format!("close {pid}"), "ok");
+                        let known = p.session_exit(pid, *kind == "closef").await;
+                        log.rec(format!("{kind} {pid}"), if known { "ok" } else { "unknown" });
+                    }
+                    ["residue"] => log.rec("residue", show_residue(p)),
+                    ["fresh", pid, peer, nonce] => {
+                        let pid = m(&map, pid);
+                        let nonce: u64 = nonce.parse().unwrap_or(0);
+                        let obs = fresh_obs(p, pid, peer, nonce);
+                        regs.insert(pid, (peer.to_string(), nonce));
+                        log.rec(format!("fresh {pid} {peer} {nonce}"), obs);
                     }
                     ["visible"] => log.rec("visible", show_u64s(&p.visible())),
                     _ => log.rec(line, "unsupported-in-replay"),
@@ -815,6 +906,7 @@ async fn main() {
         ns_case(&mut log, &mut st, &mut rng).await;
         ns_flow(&mut log, &mut st, &mut rng).await;
         ns_noninterference(&mut log, &mut st, &mut rng).await;
+        ns_reconnect(&mut log, &mut st, &mut rng).await;
     }
     for _ in 0..cases {
         hs_case(&mut log, &mut st, &mut rng).await;
